@@ -108,7 +108,7 @@ func mutLocus(l *Layout, muts []Mut) string {
 	}
 	m := muts[0]
 	switch m.Kind {
-	case "field":
+	case "field", "fieldfix":
 		f := m.Field
 		// drop indices: sec3.len -> sec.len
 		out := []byte{}
